@@ -24,6 +24,13 @@ def parseOp (j : Json) : Except String Op := do
   | "merge" => pure (.merge (← Driver.getNat j "k") (← Driver.getNat j "j") (← Driver.getBool j "pfx"))
   | "copy" => pure (.copy (← Driver.getNat j "k") (← Driver.getNat j "j"))
   | "assignMol" => pure (.assignMol (← Driver.getNat j "k") (← Driver.getStr j "sp") (← Driver.getStr j "m"))
+  | "setMolMap" => do
+    let arr ← Driver.getArr j "mapping"
+    let mapping ← arr.toList.mapM fun kv => do
+      let pr ← (fromJson? kv : Except String (Array String))
+      if pr.size ≠ 2 then throw "mapping entry"
+      pure (pr[0]!, pr[1]!)
+    pure (.setMolMap (← Driver.getNat j "k") mapping (← Driver.getBool j "strict") (← Driver.getBool j "clear"))
   | _ => throw s!"unknown op {op}"
 
 def sideJson (s : Side) : Json :=
